@@ -315,18 +315,56 @@ Proof.
   destruct (negb (f_weight f =? 0)%N && negb (f_weight f =? 400)%N); reflexivity.
 Qed.
 
+Lemma font_ext (f g : font) :
+  f_family f = f_family g ->
+  f_width f = f_width g ->
+  f_weight f = f_weight g ->
+  f_regular f = f_regular g ->
+  f_bold f = f_bold g ->
+  f_italic f = f_italic g ->
+  f_oblique f = f_oblique g ->
+  f_serif f = f_serif g ->
+  f_script f = f_script g ->
+  f_cpr f = f_cpr g ->
+  f_version f = f_version g ->
+  f_ctime f = f_ctime g ->
+  f_mtime f = f_mtime g ->
+  f_descr f = f_descr g ->
+  f_sample f = f_sample g ->
+  f_copyright f = f_copyright g ->
+  f_trademark f = f_trademark g ->
+  f_license f = f_license g ->
+  f_licurl f = f_licurl g ->
+  f_perm f = f_perm g ->
+  f_upm f = f_upm g ->
+  f_asc f = f_asc g ->
+  f_desc f = f_desc g ->
+  f_gap f = f_gap g ->
+  f_cap f = f_cap g ->
+  f_xh f = f_xh g ->
+  f_angle f = f_angle g ->
+  f_upos f = f_upos g ->
+  f_uthick f = f_uthick g ->
+  f_outl f = f_outl g ->
+  f_cmap f = f_cmap g ->
+  f_gdef f = f_gdef g ->
+  f_gsub f = f_gsub g ->
+  f_gpos f = f_gpos g ->
+  f = g.
+Proof.
+  destruct f, g; cbn; intros; subst; reflexivity.
+Qed.
+
 Theorem normalize_idem f : (ver_to_milli (f_version f) <? 65536000)%N = true ->
   normalize (normalize f) = normalize f.
 Proof.
   intros Hver.
-  unfold normalize at 1.
-  rewrite name_says_bold_normalize.
-  unfold norm_height, std_ligatures.
-  cbn [normalize f_family f_width f_weight f_regular f_bold f_italic f_oblique f_serif f_script f_cpr f_version
-       f_ctime f_mtime f_descr f_sample f_copyright f_trademark f_license f_licurl f_perm f_upm
-       f_asc f_desc f_gap f_cap f_xh f_angle f_upos f_uthick f_outl f_cmap f_gdef f_gsub f_gpos].
-  unfold normalize, norm_height, std_ligatures.
-  f_equal.
+  apply font_ext;
+    (unfold normalize at 1; rewrite ?name_says_bold_normalize; unfold norm_height, std_ligatures;
+     cbn [normalize f_family f_width f_weight f_regular f_bold f_italic f_oblique f_serif f_script f_cpr f_version
+          f_ctime f_mtime f_descr f_sample f_copyright f_trademark f_license f_licurl f_perm f_upm
+          f_asc f_desc f_gap f_cap f_xh f_angle f_upos f_uthick f_outl f_cmap f_gdef f_gsub f_gpos];
+     unfold norm_height, std_ligatures; try reflexivity).
   - (* regular *)
     unfold name_says_bold.
     destruct (negb (f_weight f =? 0)%N && negb (f_weight f =? 400)%N);
